@@ -35,10 +35,19 @@ def _sd(sec):
     return (datetime.datetime(1970, 1, 1) + datetime.timedelta(seconds=sec)).strftime("%Y-%m-%dT%H-%M-%S")
 
 
-def _dt(ms):
+def _dt(ms, form="utc"):
+    """window bound as the API accepts it: aware UTC, naive (= UTC), or aware in another zone (same instant);
+    ms may carry a sub-millisecond fraction"""
     if ms is None:
         return None
-    return datetime.datetime(1970, 1, 1, tzinfo=datetime.timezone.utc) + datetime.timedelta(milliseconds=ms)
+    t = datetime.datetime(1970, 1, 1, tzinfo=datetime.timezone.utc) + datetime.timedelta(milliseconds=ms)
+    if form == "naive":
+        return t.replace(tzinfo=None)
+    if form == "+0530":
+        return t.astimezone(datetime.timezone(datetime.timedelta(hours=5, minutes=30)))
+    if form == "-0800":
+        return t.astimezone(datetime.timezone(datetime.timedelta(hours=-8)))
+    return t
 
 
 def _iso(ms):
@@ -254,10 +263,20 @@ def gen_plan(prop, tier, rng, i):
     wins = gen_windows(rng, entries, 6 if tier == "quick" else 20)
     queries = []
     dirs = [""] + sorted(set(e["p"] for e in entries if e["t"] == "d" and not RE_SUBDIR.match(os.path.basename(e["p"]))))
+    def frac(x):
+        # window bounds need not be whole milliseconds
+        if x is None or rng.random() < 0.7:
+            return x
+        return x + rng.choice([0.5, -0.5, 0.999, -0.001, 0.001])
+
     for (a, b) in wins:
+        a, b = frac(a), frac(b)
+        if a is not None and b is not None and b < a:
+            a, b = b, a
         for _ in range(2):
             tri = lambda: rng.choice([True, False, None])  # noqa
-            queries.append({"dir": rng.choice(dirs[:1] * 3 + dirs), "recursive": rng.random() < 0.8,
+            queries.append({"tzform": rng.choice(["utc", "utc", "naive", "+0530", "-0800"]),
+                            "dir": rng.choice(dirs[:1] * 3 + dirs), "recursive": rng.random() < 0.8,
                             "reverse": rng.random() < 0.5, "start": a, "end": b,
                             "flags": {"include_drf": rng.random() < 0.75, "include_dmd": rng.random() < 0.75,
                                       "include_drf_properties": tri(), "include_dmd_properties": tri()}})
@@ -338,7 +357,8 @@ def _run_c14(plan, res, sc):
         static_queries = plan["queries"] if not plan["mutations"] else plan["queries"][:4]
         for qi, q in enumerate(static_queries):
             res.stat("listings")
-            kw = dict(recursive=q["recursive"], reverse=q["reverse"], starttime=_dt(q["start"]), endtime=_dt(q["end"]), **q["flags"])
+            kw = dict(recursive=q["recursive"], reverse=q["reverse"], starttime=_dt(q["start"], q.get("tzform", "utc")),
+                      endtime=_dt(q["end"], q.get("tzform", "utc")), **q["flags"])
             start_dir = os.path.join(root, q["dir"]) if q["dir"] else root
             if not plan["mutations"]:
                 try:
@@ -514,6 +534,7 @@ def _gen_c18(rng, tier, i):
         if len(chs) == 2 and rng.random() < 0.3:
             chs = [",".join(chs)]
     plan = {"engine": "lssim", "tree": entries, "recs": recs, "cmd": cmd, "flags": flags, "chs": chs,
+            "src_alias": rng.random() < 0.25,
             "only": rng.random() < 0.2, "reverse": rng.random() < 0.3, "symbolic": cmd == "ln" and rng.random() < 0.5,
             "start": None, "end": None, "readdir_seed": rng.randrange(2**32)}
     if rng.random() < 0.5:
@@ -603,7 +624,14 @@ def _run_c18(plan, res, sc):
             expected[os.path.relpath(p, pristine)] = p
     seams.install(os.path.join(sc, "tree"), plan.get("readdir_seed", 1))
     try:
-        args = _args_for(plan, src, dest)
+        src_arg = src
+        if plan.get("src_alias"):
+            # the source directory is given through a symbolic link (e.g. /data -> /mnt/disk1)
+            os.makedirs(os.path.join(sc, "tree", "links"), exist_ok=True)
+            src_arg = os.path.join(sc, "tree", "links", "alias")
+            if not os.path.lexists(src_arg):
+                os.symlink(src, src_arg)
+        args = _args_for(plan, src_arg, dest)
         res.trace.add(" ".join(a.replace(sc, "") for a in args))
         try:
             drf_command.main(args)
